@@ -1291,17 +1291,43 @@ def stdlib_dirs():
 
 def m_rfind(ex, st, args, kwargs, node):
     """builtin str.rfind for a ONE-character constant needle c, by its definition: -1 iff c does not occur; else the k with
-    s == a + c + b, k == len(a), c not in b (sound and complete for one character; anything else: no model)"""
+    s == a + c + b, k == len(a), c not in b (sound and complete for one character; anything else: no model).
+    A second search in a string this path has already split as s == x + c0 + y (c0 != c, c0 not in y) is answered inside that
+    split -- c occurs last in y, else last in x, else nowhere: the same definition, case by case -- so that a path never holds
+    two unrelated decompositions of one string (z3's sequence solver answers `unknown` on those)."""
     from pyvc.values import VInt
     s = args[0]
     c = args[1].const() if len(args) == 2 and isinstance(args[1], VStr) else None
     if not isinstance(s, VStr) or c is None or len(c) != 1 or kwargs:
         return ex.havoc_call(st, "str.rfind", args, node)
     ct = z3.StringVal(c)
-    a, b = z3.String(fresh_name("rfind!a")), z3.String(fresh_name("rfind!b"))
-    nf = st.fork().assume(z3.Not(z3.Contains(s.t, ct)))
-    fd = st.assume(z3.And(s.t == z3.Concat(a, ct, b), z3.Not(z3.Contains(b, ct))))
-    return [(nf, VInt(z3.IntVal(-1))), (fd, VInt(z3.Length(a)))]
+
+    def split(state, t, base):
+        """outcomes of the search for the last c in term t (positions counted from `base`): [(state, index term, parts | None)]"""
+        a, b = z3.String(fresh_name("rfind!a")), z3.String(fresh_name("rfind!b"))
+        nf = state.fork().assume(z3.Not(z3.Contains(t, ct)))
+        fd = state.assume(z3.And(t == z3.Concat(a, ct, b), z3.Not(z3.Contains(b, ct))))
+        return [(nf, None, None), (fd, base + z3.Length(a), (a, b))]
+
+    known = dict(st.ghost.get("rfind_parts", {}))
+    prev = known.get(s.t.get_id())
+    out = []
+    if prev is not None and prev[1] != c:
+        (_keep, c0, x, y) = prev
+        for (s1, idx, _p) in split(st, y, z3.Length(x) + 1):
+            if idx is not None:
+                out.append((s1, VInt(z3.simplify(idx))))
+                continue
+            for (s2, idx2, _q) in split(s1, x, z3.IntVal(0)):
+                out.append((s2, VInt(z3.IntVal(-1) if idx2 is None else z3.simplify(idx2))))
+        return out
+    for (s1, idx, parts) in split(st, s.t, z3.IntVal(0)):
+        if parts is not None:
+            g = dict(s1.ghost.get("rfind_parts", {}))
+            g[s.t.get_id()] = (s.t, c, parts[0], parts[1])      # (the term is kept alive with its id)
+            s1.ghost["rfind_parts"] = g
+        out.append((s1, VInt(z3.IntVal(-1) if idx is None else z3.simplify(idx))))
+    return out
 
 
 class SliceExecutor(Executor):
